@@ -73,7 +73,7 @@ CHECKS["C04"] = dict(
                "real encoders and the real receivers over a fault-free simulated link: frame format, exactly-once in-order delivery on the last byte, "
                "content equality, output-buffer bounds; also on a receiver object that was re-initialised in the middle of an earlier frame (init / setbuf / setbuf onto a new buffer) or that reported overflow for an earlier frame. Sampling, not proof",
     level_note="trusted: the reference encoder/unescape/CRC-8 in the harness; ASan for bounds; this is the fault-free configuration of the C05 world",
-    rule="one run = one seeded traffic of 1..5 frames for one framing variant (configurable v1 alphabet, configurable start==stop alphabet, legacy C) "
+    rule="one run = one seeded traffic of 1..5 frames (1 in 40: 60..150) for one framing variant (configurable v1 alphabet, configurable start==stop alphabet, legacy C, three user alphabets) "
          "and one encoder entry point, delivered byte by byte without faults. non-trivial = some payload byte or the CRC needed escaping; "
          "distinct = distinct hash of the (byte, receiver status) sequence",
     simtime_units="bytes delivered over the simulated link",
